@@ -676,17 +676,23 @@ handshake_waitdns(int dns_fd, char *buf, int buflen, char c1, char c2, int timeo
    Returns -3 on timeout (given in seconds).
    Returns -1 on other errors.
 
-   Timeout is restarted when "wrong" (previous/delayed) replies are received,
-   so effective timeout may be longer than specified.
+   "Wrong" (previous/delayed/stray) replies are ignored and do not restart
+   the timeout; with whole-second clocks the effective timeout may be up to
+   two seconds longer than specified, never shorter.
 */
 {
 	struct query q;
 	int r, rv;
 	fd_set fds;
 	struct timeval tv;
+	time_t start;
+	int left;
+
+	start = time(NULL);
+	left = timeout;
 
 	while (1) {
-		tv.tv_sec = timeout;
+		tv.tv_sec = left;
 		tv.tv_usec = 0;
 		FD_ZERO(&fds);
 		FD_SET(dns_fd, &fds);
@@ -706,6 +712,14 @@ handshake_waitdns(int dns_fd, char *buf, int buflen, char c1, char c2, int timeo
 #if 0
 			fprintf(stderr, "Ignoring unfitting reply id %d starting with '%c'\n", q.id, q.name[0]);
 #endif
+			/* Go on waiting, but only for what is left (rounded
+			   up): a steady trickle of such datagrams must not
+			   keep the caller from ever re-sending its query. */
+			left = timeout + 1 - (int) (time(NULL) - start);
+			if (left > timeout)
+				left = timeout;
+			if (left <= 0)
+				return -3;	/* timeout */
 			continue;
 		}
 
